@@ -34,9 +34,13 @@ func NewDocument() *Document {
 	}
 }
 
-// AddPage appends a page to the document and assigns its page number (1-indexed).
+// AddPage appends a page to the document. A page that has no number yet is
+// assigned the next 1-indexed position; a number set by the caller (for
+// example the source page number of a partial extraction) is kept.
 func (d *Document) AddPage(page *Page) {
-	page.Number = len(d.Pages) + 1
+	if page.Number == 0 {
+		page.Number = len(d.Pages) + 1
+	}
 	d.Pages = append(d.Pages, page)
 }
 
